@@ -23,6 +23,9 @@ results = {}
 for p in props:
     if subprocess.run(['git', '-C', '/repo', 'diff', '--quiet']).returncode != 0:
         print('/repo dirty'); sys.exit(2)
+    # the evidence file describes the unchanged tree: keep it across the run against the change
+    evp = os.path.join(VERIF, 'evidence', p + '.json')
+    evidence_backup = open(evp).read() if os.path.exists(evp) else None
     subprocess.run(['git', '-C', '/repo', 'apply', os.path.join(dst, 'patch.diff')], check=True)
     t0 = time.time()
     try:
@@ -32,6 +35,8 @@ for p in props:
     finally:
         subprocess.run(['git', '-C', '/repo', 'checkout', '--', '.'])
         subprocess.run(['git', '-C', '/repo', 'clean', '-fdq'])
+        if evidence_backup is not None:
+            open(evp, 'w').write(evidence_backup)
     replay = None
     m = re.search(r'replay=(\S+)', '\n'.join(lines))
     if m and os.path.exists(m.group(1)):
